@@ -112,7 +112,7 @@ def lean_side(pid, tier):
         # does this property's own module still build?
         ok3, out3 = lib.lake_build(("CatVerif.Properties.%s" % pid,)) if res["thms"] else (True, "")
         res["prop_build_ok"] = ok3
-        if ok3 and res["thms"]:
+        if ok3:
             res["problems"] = []   # other properties' proofs are broken, not this one's
     else:
         res["driver_ok"] = True
